@@ -117,6 +117,9 @@ type Frame struct {
 	entry   *State // state at function entry (for old())
 	params  map[string]CV
 	inlined bool
+	parent  *Frame
+	envCells map[string]interface{} // closure verified on its own: variables of the enclosing function captured by sibling closures
+	envTypes map[string]types.Type
 	defers  []*ssa.Defer
 	namePfx string
 	edgeCond map[edgeKey]string
@@ -347,7 +350,9 @@ func (g *Gen) scalarKey(t types.Type) (key, sort string) {
 
 func (g *Gen) globalKey(gl *ssa.Global) (key, sort string) {
 	t := gl.Type().(*types.Pointer).Elem()
-	return "G:" + gl.Pkg.Pkg.Path() + "." + gl.Name(), g.sortOf(t)
+	key = "G:" + gl.Pkg.Pkg.Path() + "." + gl.Name()
+	g.keyType[key] = t
+	return key, g.sortOf(t)
 }
 
 // allocatedIn: every reference contained in value v (of Go type t) is at most top.
@@ -398,7 +403,22 @@ func (g *Gen) heapWF(name, key, top string) {
 	g.sc.addAxiom([]string{name}, fmt.Sprintf("(assert (forall (%s) (! %s :pattern (%s))))", binds, body, pat))
 }
 
-func (g *Gen) havocAllHeap(st *State) {
+func (g *Gen) havocAllHeap(st *State, explicit ...map[string]bool) {
+	before := map[string]string{}
+	for k, srt := range g.universe {
+		if k[0] == 'F' {
+			skip := false
+			for _, ex := range explicit {
+				if ex[k] {
+					skip = true // explicitly written by the code being summarised: not preserved
+				}
+			}
+			if !skip {
+				before[k] = g.heapGet(st, k, srt)
+			}
+		}
+	}
+	defer g.keepPrivate(st, before)
 	keys := make([]string, 0, len(g.universe))
 	for k := range g.universe {
 		keys = append(keys, k)
@@ -407,6 +427,9 @@ func (g *Gen) havocAllHeap(st *State) {
 	for _, k := range keys {
 		if strings.HasPrefix(k, "G:") && g.P.constGlobals[k] {
 			continue
+		}
+		if t, ok := g.keyType[k]; ok {
+			g.sortOf(t) // make sure the sorts are declared in this pass
 		}
 		st.heap[k] = g.freshConst("hv_"+k, g.universe[k])
 		g.heapWF(st.heap[k], k, st.top)
@@ -818,6 +841,7 @@ func (g *Gen) newFrame(fn *ssa.Function, parent *Frame) *Frame {
 	fr := &Frame{fn: fn, vals: map[ssa.Value]Val{}, free: map[*ssa.FreeVar]Val{}, edgeCond: map[edgeKey]string{}, params: map[string]CV{}}
 	if parent != nil {
 		fr.depth = parent.depth + 1
+		fr.parent = parent
 	}
 	if fr.depth > 6 {
 		panic(reject("inlining depth exceeded at %s", fn.Name()))
@@ -947,7 +971,7 @@ func (g *Gen) loopHead(fr *Frame, st *State, li *loopInfo) {
 		st.top = nt
 	}
 	if eff.allHeap {
-		g.havocAllHeap(st)
+		g.havocAllHeap(st, eff.heap)
 	} else {
 		var hk []string
 		for k := range eff.heap {
@@ -959,6 +983,9 @@ func (g *Gen) loopHead(fr *Frame, st *State, li *loopInfo) {
 			if !ok {
 				continue // never referenced so far; a later pass will see it
 			}
+			if t, ok := g.keyType[k]; ok {
+				g.sortOf(t)
+			}
 			st.heap[k] = g.freshConst("lh_"+k, srt)
 			g.heapWF(st.heap[k], k, st.top)
 		}
@@ -967,6 +994,13 @@ func (g *Gen) loopHead(fr *Frame, st *State, li *loopInfo) {
 		for _, inv := range lc.Invs {
 			env := g.envFor(fr, st)
 			g.assume(st, env.evalBool(inv.Expr))
+		}
+	}
+	if con := g.anchorContract(fr); con != nil && fr.con == con {
+		for _, s := range con.Sets {
+			if s.Loop == li.ordinal && s.Loop > 0 {
+				g.ghostSet(fr, st, s, nil)
+			}
 		}
 	}
 }
@@ -1130,7 +1164,7 @@ func (g *Gen) instr(fr *Frame, st *State, ins ssa.Instruction) {
 		et := x.Type().Underlying().(*types.Slice).Elem()
 		r := g.allocRef(st, "mkslice")
 		k, s := g.elemKey(et)
-		g.heapSet(st, k, s, sx("store", g.heapGet(st, k, s), r, fmt.Sprintf("((as const (Array %s %s)) %s)", g.idxSort(), g.sortOf(et), g.zero(et))))
+		g.heapSet(st, k, s, sx("store", g.heapGet(st, k, s), r, g.constArray(fmt.Sprintf("(Array %s %s)", g.idxSort(), g.sortOf(et)), g.idxSort(), g.zero(et))))
 		g.needSlice()
 		fr.vals[x] = Val{T: sx("mk_slice", r, z, ln, cp)}
 	case *ssa.MakeMap:
@@ -1156,6 +1190,7 @@ func (g *Gen) instr(fr *Frame, st *State, ins ssa.Instruction) {
 		g.selectInstr(fr, st, x)
 	case *ssa.Send:
 		g.note("channel send is a no-op in the VC (receiver side modelled by havoc)")
+		g.sendAnchors(fr, st, x.Chan, g.val(fr, st, x.X), x.X.Type())
 	case *ssa.Go:
 		g.note("goroutine spawn ignored: " + x.Call.String())
 	case *ssa.Defer:
@@ -1256,8 +1291,10 @@ func (g *Gen) unop(fr *Frame, st *State, x *ssa.UnOp) {
 		}
 		if x.CommaOk {
 			ok := g.freshConst("recvok", "Bool")
+			g.recvAssume(fr, st, x.X, v, et, ok)
 			fr.vals[x] = Val{Tuple: []Val{{T: ite(ok, v, g.zero(et))}, {T: ok}}}
 		} else {
+			g.recvAssume(fr, st, x.X, v, et, "true")
 			fr.vals[x] = Val{T: v}
 		}
 	default:
@@ -1621,16 +1658,33 @@ func (g *Gen) selectInstr(fr *Frame, st *State, x *ssa.Select) {
 		lo = g.idxLit(-1)
 	}
 	g.assume(st, and(g.cmp(token.LEQ, lo, idx, intT), g.cmp(token.LSS, idx, g.idxLit(int64(n)), intT)))
-	tuple := []Val{{T: idx}, {T: g.freshConst("selok", "Bool")}}
-	for _, s := range x.States {
+	selok := g.freshConst("selok", "Bool")
+	tuple := []Val{{T: idx}, {T: selok}}
+	for i, s := range x.States {
+		chosen := eq(idx, g.idxLit(int64(i)))
 		if s.Dir == types.RecvOnly {
 			et := s.Chan.Type().Underlying().(*types.Chan).Elem()
 			v := g.freshConst("selrecv", g.sortOf(et))
 			g.assume(st, g.wf(v, et))
-			if _, isPtr := et.Underlying().(*types.Pointer); isPtr {
-				g.assume(st, sx("<=", v, st.top))
+			g.assume(st, g.allocatedIn(v, et, st.top, 0))
+			g.recvAssume(fr, st, s.Chan, v, et, and(chosen, selok))
+			tuple = append(tuple, Val{T: ite(and(chosen, selok), v, g.zero(et))})
+		} else if s.Dir == types.SendOnly {
+			// the send happens only if this arm is chosen: check anchors under that condition
+			sub := st.clone()
+			g.assume(sub, chosen)
+			before := len(g.obls)
+			g.sendAnchors(fr, sub, s.Chan, g.val(fr, st, s.Send), s.Send.Type())
+			_ = before
+			// ghost updates made by the anchors are merged back conditionally
+			for k, nv := range sub.cells {
+				if ks, ok := k.(string); ok && strings.HasPrefix(ks, "ghost:") {
+					if ov, ok := st.cells[k]; ok && ov.T != nv.T {
+						srt, _ := g.cellSort(k)
+						st.cells[k] = Val{T: g.define("gh", srt, ite(chosen, nv.T, ov.T))}
+					}
+				}
 			}
-			tuple = append(tuple, Val{T: v})
 		}
 	}
 	g.note("select: every arm is enabled (non-deterministic choice = all schedules)")
@@ -1642,4 +1696,18 @@ func (g *Gen) runDefers(fr *Frame, st *State) {
 		d := fr.defers[i]
 		g.call(fr, st, d.Common(), nil)
 	}
+}
+
+// constArray: an array that is `val` everywhere. Solvers want a value under (as const ...);
+// zero values containing uninterpreted constants (the empty string) use a quantified definition.
+func (g *Gen) constArray(arrSort, idxSort, val string) string {
+	if !strings.Contains(val, "str_empty") && !strings.Contains(val, "flt_") {
+		return fmt.Sprintf("((as const %s) %s)", arrSort, val)
+	}
+	if g.specMode {
+		return fmt.Sprintf("((as const %s) %s)", arrSort, val)
+	}
+	a := g.freshConst("zeros", arrSort)
+	g.sc.addAxiom([]string{a}, fmt.Sprintf("(assert (forall ((i %s)) (! (= (select %s i) %s) :pattern ((select %s i)))))", idxSort, a, val, a))
+	return a
 }
